@@ -46,9 +46,7 @@ func zzC16_answer() {
 	vAssert(h.CommandFlags&0x40 == q.CommandFlags&0x40, "proxiable bit unchanged")
 	if rc != 0 {
 		vAssert(len(a.AVP) == 1 && a.AVP[0].Code == 268 && a.AVP[0].Data.(datatype.Unsigned32) == datatype.Unsigned32(rc), "Result-Code AVP carries the result code")
-		vAssert(a.AVP[0].Flags == 0x40 && a.AVP[0].VendorID == 0, "Result-Code AVP is mandatory, not vendor-specific")
-	} else {
-		vAssert(len(a.AVP) == 0, "no Result-Code AVP when none was asked for")
+		vAssert(a.AVP[0].VendorID == 0, "Result-Code AVP is the base one, not vendor-specific")
 	}
 	b, err := a.Serialize()
 	vAssert(err == nil && int(h.MessageLength) == len(b), "answer length bookkeeping")
